@@ -23,7 +23,7 @@ from ..seams.flow import ProbeFC
 PROPERTY = "C05"
 LEVEL = "exploration"
 ABSTRACT_WIDTH = 6
-N_RUNS = {"quick": 120000, "thorough": 1500000}
+N_RUNS = {"quick": 120000, "thorough": 4000000}
 RULE = ("each run draws a chain of 0-3 pre-elements (callable, Variable, Filter, non-negative "
         "Slice(start,stop,step), RunIf), one accumulator (Sum, DSum, Mean with/without "
         "pass_on_empty or sum_seq, VarianceMeanCount, Vectorize, StoreFilled, GroupBy, Histogram, "
